@@ -16,7 +16,7 @@ VHDL_ASSUME = [
 
 C05_MODULES = ["contracts.core_models", "contracts.c09_arith", "contracts.c09_bounded", "contracts.c05_convert", "contracts.c05_format_cast", "contracts.c05_setters", "contracts.c05_join", "contracts.c05_castsetter", "contracts.c13_array"]
 
-C13_MODULES = ["contracts.core_models", "contracts.c09_bounded", "contracts.c13_types", "contracts.c13_views", "contracts.c13_array", "contracts.c13_refspec", "contracts.c13_alias", "contracts.c09_tqparts", "contracts.c05_format_cast", "contracts.c02_ops", "contracts.c08_temporaries", "contracts.c08_cleanup", "contracts.c12_actuals", "contracts.c05_castsetter"]
+C13_MODULES = ["contracts.core_models", "contracts.c09_bounded", "contracts.c13_types", "contracts.c13_views", "contracts.c13_array", "contracts.c13_refspec", "contracts.c13_alias", "contracts.c09_tqparts", "contracts.c05_format_cast", "contracts.c02_ops", "contracts.c08_temporaries", "contracts.c08_cleanup", "contracts.c12_actuals", "contracts.c05_castsetter", "contracts.c12_instances"]
 
 C06_MODULES = C05_MODULES + ["contracts.c13_types", "contracts.c13_views", "contracts.c06_names", "contracts.c06_ports", "contracts.c06_stmts", "contracts.c06_literals", "contracts.c02_ops", "contracts.c06_sensitivity", "contracts.c03_refvisit", "contracts.c06_text", "contracts.c06_library", "contracts.c02_replace", "contracts.c12_instances"]
 
@@ -143,7 +143,7 @@ PROPERTIES = {
             "the master side (read_word / write_word), std.axi.axi4_light.base_entity / addr_map_entity wiring and the register classes beyond decode and mask handling (fields, notifications, arrays, Memory) are not under contract",
             "is_pow_two / int_log_2 are uninterpreted in the decode proof, constrained only for the object's size",
         ],
-        "extra": ["contracts.c20_extra.mask_dataflow", "contracts.c20_extra.field_kinds", "contracts.c20_extra.mask_sweep", "contracts.c20_regsweep.register_sweep", "contracts.c20_layout.field_extract_sweep", "contracts.c20_layout.layout_sweep"],
+        "extra": ["contracts.c20_extra.mask_dataflow", "contracts.c20_extra.field_kinds", "contracts.c20_extra.mask_sweep", "contracts.c20_regsweep.register_sweep", "contracts.c20_layout.field_extract_sweep", "contracts.c20_layout.layout_sweep", "contracts.c20_layout.map_keys_sweep"],
         "canaries": [
             {"name": "decode-alignment", "contract": "cohdl.std.reg.reg:RegisterObject._contains_addr_", "case": "pow2-unaligned", "file": "cohdl/std/reg/reg.py",
              "old": "        if std.is_pow_two(unit_count) and global_offset % unit_count == 0:", "new": "        if std.is_pow_two(unit_count):"},
@@ -158,7 +158,7 @@ PROPERTIES = {
             "'identical in emitted logic' is not executed (no VHDL simulator): serialisation in a synthesizable context runs the same Python functions on signals; the emitted slices/concats rest on the slice-offset contracts of C02/C13",
             "BitField writes are observed through Variable-backed fields with .value (eager evaluation outside the compiler)",
         ],
-        "extra": ["contracts.c17_serial.serial_sweep", "contracts.c17_extra.template_key_sweep"],
+        "extra": ["contracts.c17_serial.serial_sweep", "contracts.c17_extra.template_key_sweep", "contracts.c17_extra.nested_bitfield_sweep"],
         "canaries": [
             {"name": "slice-off-by-one", "contract": "cohdl.std._record:_make_serializable", "case": "3-members", "file": "cohdl/std/_record.py",
              "old": "        slice_map[name] = slice(elem_start + width - 1, elem_start)", "new": "        slice_map[name] = slice(elem_start + width, elem_start)"},
